@@ -46,14 +46,17 @@ PULL_NAMES = {f[2] for f in FAMS}
 COMPLETING = (0, 1)
 # arguments passed to the Iter call AND to the traditional operation (same meaning in both)
 EXTRA = {
-    0: [{}, {}, {'DeepInheritance': False}, {'PropertyList': ['name']}, {'IncludeClassOrigin': True}],
+    0: [{}, {}, {'DeepInheritance': False}, {'PropertyList': ['name']}, {'IncludeClassOrigin': True},
+        {'PropertyList': 'name'}, {'PropertyList': ('name', 'v')}, {'PropertyList': []}, {'DeepInheritance': True}],
     1: [{}],
     2: [{}, {}, {'AssocClass': 'TST_L'}, {'Role': 'parent'}, {'Role': 'child'}, {'ResultRole': 'child'},
-        {'ResultRole': 'parent'}, {'ResultClass': 'TST_Q'}, {'PropertyList': ['v']}, {'IncludeClassOrigin': True}],
+        {'ResultRole': 'parent'}, {'ResultClass': 'TST_Q'}, {'PropertyList': ['v']}, {'IncludeClassOrigin': True},
+        {'PropertyList': 'v'}, {'PropertyList': ('name',)}, {'ResultClass': 'tst_q'}],
     3: [{}, {}, {'AssocClass': 'TST_L'}, {'Role': 'child'}, {'ResultRole': 'child'}, {'ResultRole': 'parent'},
         {'ResultClass': 'TST_Q'}],
     4: [{}, {}, {'ResultClass': 'TST_L'}, {'ResultClass': 'TST_Q'}, {'Role': 'parent'}, {'Role': 'child'},
-        {'PropertyList': ['parent']}, {'IncludeClassOrigin': True}],
+        {'PropertyList': ['parent']}, {'IncludeClassOrigin': True}, {'PropertyList': 'parent'},
+        {'PropertyList': ('parent', 'child')}],
     5: [{}, {}, {'ResultClass': 'TST_L'}, {'ResultClass': 'TST_Q'}, {'Role': 'parent'}, {'Role': 'child'}],
     6: [{}],
 }
@@ -118,14 +121,30 @@ def ns_name(i):
     return NSS[i] if i < len(NSS) else NS_MISSING
 
 
-def int_arg(v):
-    """'x' stands for a value of a non-integer type"""
-    return 2.5 if v == 'x' else v
+def int_arg(v, form=None):
+    """'x' stands for a value of a non-integer type; `form`: the documented alternative forms of an integer argument
+    (pywbem.Uint32 / Uint64 are int subclasses, bool is one too) -- same value, same meaning"""
+    import pywbem
+    if v == 'x':
+        return 2.5
+    if form and isinstance(v, int) and not isinstance(v, bool):
+        if form == 'u32' and 0 <= v < 2 ** 32:
+            return pywbem.Uint32(v)
+        if form == 'u64' and 0 <= v < 2 ** 64:
+            return pywbem.Uint64(v)
+        if form == 'bool' and v in (0, 1):
+            return bool(v)
+    return v
+
+
+def eff_int(v, form):
+    """how the model sees an integer argument: a bool is not an integer ('x'), Uint32/Uint64 are"""
+    return 'x' if form == 'bool' and v in (0, 1) and not isinstance(v, bool) and isinstance(v, int) else v
 
 
 def max_invalid(ev):
     """the exception class _validate_OperationTimeout/_validate_MaxObjectCount_Iter are documented to raise"""
-    t, m = ev['timeout'], ev['max']
+    t, m = eff_int(ev['timeout'], ev.get('toform')), eff_int(ev['max'], ev.get('maxform'))
     if t == 'x':
         return 'TypeError'
     if t is not None and t < 0:
@@ -258,9 +277,9 @@ class Real:
             return args, kw
         if ev.get('tradonly'):
             kw[ev['tradonly']] = True       # documented: ignored by the pull path, passed on by the fallback
-        kw['MaxObjectCount'] = int_arg(ev['max'])
+        kw['MaxObjectCount'] = int_arg(ev['max'], ev.get('maxform'))
         if ev['timeout'] is not None:
-            kw['OperationTimeout'] = int_arg(ev['timeout'])
+            kw['OperationTimeout'] = int_arg(ev['timeout'], ev.get('toform'))
         if fam != 6:
             if ev['lang'] != 0:
                 kw['FilterQueryLanguage'] = 5 if ev.get('ftype') == 'lang' else LANGS[ev['lang']]
@@ -371,7 +390,7 @@ class Real:
             ok = ok or (code == 7 and disabled and before is True)
             ok = ok or (code == 4 and pull_route and not disabled and
                         ((ev['fam'] != 6 and ev['lang'] == 0 and ev['query'])
-                         or (ev['timeout'] not in (None, 'x') and ev['timeout'] > MAX_SERVER_TIMEOUT)))
+                         or (eff_int(ev['timeout'], ev.get('toform')) not in (None, 'x') and ev['timeout'] > MAX_SERVER_TIMEOUT)))
             ok = ok or (code == 14 and pull_route and not disabled and ev['lang'] == 2)
             if not ok:
                 self.violate(sig, {'flag_before': before, 'disabled': disabled, 'traditional_status': m['terr']})
@@ -430,7 +449,8 @@ class Real:
                  'flag_before': None, 'expected_fb': expected_fb}
             self.meta[j] = m
             self.model_ev = {'ev': 'call', 'fam': fam, 'ns': ev['ns'], 'terr': terr,
-                             'objs': [self.code(o) for o in expected], 'max': ev['max'], 'timeout': ev['timeout'],
+                             'objs': [self.code(o) for o in expected], 'max': eff_int(ev['max'], ev.get('maxform')),
+                             'timeout': eff_int(ev['timeout'], ev.get('toform')),
                              'lang': ev['lang'], 'query': bool(ev['query']) or fam == 6, 'coe': ev['coe'] is not None,
                              'rqrc': ev['rqrc'] is not None, 'coetype': ev['coe'] == 'x',
                              'filtertype': fam != 6 and ev.get('ftype') is not None,
@@ -607,6 +627,10 @@ def gen_call(rng, n, style):
     ev = {'ev': 'call', 'fam': fam, 'ns': rng.choice([0] * 10 + [1, 2]),
           'cls': rng.choice(['TST_P'] * 8 + ['TST_Q', 'TST_X']), 'src': rng.choice(['p0'] * 6 + ['p1', 'zz']),
           'extra': rng.randrange(20), 'lang': 0, 'query': False, 'coe': None, 'rqrc': None, 'timeout': None}
+    if rng.random() < 0.3:
+        ev['maxform'] = rng.choice(['u32', 'u32', 'u64', 'bool'])
+    if ev['timeout'] is not None and rng.random() < 0.5:
+        ev['toform'] = rng.choice(['u32', 'u64', 'u32', 'bool'])
     if fam in (2, 3, 4, 5) and rng.random() < 0.08:
         ev['srcclass'] = True
     if fam in (0, 2) and rng.random() < 0.15:
@@ -811,7 +835,8 @@ def judge(run, case, steps, model_events, viol, stats, answer):
 
 RULE = ('seeded random histories on one real FakedWBEMConnection: use_pull_operations in {None,True,False}, server pull '
         'initially enabled/disabled and toggled between events; 3..14 blocks of: Iter call (7 families, namespaces '
-        'existing/other/missing, classes/source instances existing or not, MaxObjectCount 1..n+1,100 and a near-miss stream '
+        'existing/other/missing, classes/source instances existing or not, MaxObjectCount 1..n+1,100 (as int, Uint32, Uint64, '
+        'bool) and a near-miss stream '
         '0,-1,None,non-int,10^6; OperationTimeout None,0,10,40,41,60,-1,non-int; FilterQueryLanguage/FilterQuery/'
         'ContinueOnError/ReturnQueryResultClass combinations incl. wrongly typed ContinueOnError/FilterQuery/FilterQueryLanguage; extra arguments shared with the traditional operation), '
         'bursts of next(), close(), drop + gc.collect(), throw(OSError | CIMError 7/1/4), removal of the second namespace '
@@ -973,6 +998,19 @@ def directed_cases():
                     call = dict(base, fam=fam, ns=ns, srcclass=True)
                     evs = [call] + nx(0, 4) + [dict(base, fam=fam, ns=ns)] + nx(1, 3)
                     out.append({'use': use, 'disabled': disabled, 'n': 3, 'events': evs, 'style': 'directed'})
+    # the documented alternative FORMS of the integer arguments: int subclasses (Uint32 / Uint64, bool) mean what the
+    # plain int means -- valid values are accepted in every mode, 0 is the documented ValueError (not a TypeError);
+    # bool is NOT an integer for these arguments (TypeError in every mode, as for Open.../Pull...)
+    for fam in range(7):
+        call = dict(base, fam=fam, lang=1 if fam == 6 else 0)
+        for use, disabled in ((None, False), (None, True), (True, False), (False, False)):
+            for v in ({'max': 2, 'maxform': 'u32'}, {'max': 2, 'maxform': 'u64'}, {'max': 1, 'maxform': 'bool'},
+                      {'max': 0, 'maxform': 'u32'}, {'max': 0, 'maxform': 'bool'},
+                      {'max': 2, 'timeout': 10, 'toform': 'u32'}, {'max': 2, 'maxform': 'u32', 'timeout': 0, 'toform': 'u64'},
+                      {'max': 2, 'timeout': 1, 'toform': 'bool'}, {'max': 2, 'timeout': 40, 'toform': 'u32'},
+                      {'max': 2, 'timeout': 41, 'toform': 'u32'}):
+                evs = [dict(call, **v)] + (nx(0, 5) if fam != 6 else [])
+                out.append({'use': use, 'disabled': disabled, 'n': 3, 'events': evs, 'style': 'directed'})
     # the class given as CIMClassName carrying the namespace (namespace=None)
     for fam in (0, 1):
         for use in (None, True, False):
